@@ -476,7 +476,7 @@ func c01Run(t *testing.T, cfg c01Config) c01Outcome {
 
 // ---- enumeration --------------------------------------------------------------------
 
-var c01Fates = []sim.Fate{sim.Drop, sim.Dup, sim.Delay, sim.DelayLong, sim.Flip0, sim.Flip7, sim.FlipMid, sim.FlipLast, sim.Trunc1, sim.Trunc20, sim.TruncLast}
+var c01Fates = []sim.Fate{sim.Drop, sim.Dup, sim.Delay, sim.DelayLong, sim.Flip0, sim.Flip7, sim.FlipMid, sim.FlipLast, sim.Trunc1, sim.Trunc20, sim.TruncLast, sim.FlipSCID}
 var c01FatesSmall = []sim.Fate{sim.Drop, sim.Dup, sim.Delay, sim.FlipMid, sim.Trunc20}
 
 func c01Part(t *testing.T, name string, mk func(e explore.Env) (cfgs []c01Config, rule string)) explore.Part {
